@@ -79,10 +79,13 @@ class _OpxRange(ExcelWrapper.RangeData):
             # if this range refers to a CSE Array Formula, get the formula
             front, *args = cells[0][0].value[:-1].rsplit(',', 4)
 
-            # if this range corresponds to the top left of a CSE Array formula
+            # if this range starts at the top left of a CSE Array formula
+            # and every one of its cells is that member of that formula
+            text = front[len(ARRAY_FORMULA_NAME) + 1:]
             if (args[0] == args[1] == '1') and all(
-                    isinstance(c.value, str) and c.value.startswith(front)
-                    for c in flatten(cells)):
+                    c.value == ARRAY_FORMULA_FORMAT % (text, i, j, *args[2:])
+                    for i, row in enumerate(cells, start=1)
+                    for j, c in enumerate(row, start=1)):
                 # apply formula to the range
                 formula = '={%s}' % front[len(ARRAY_FORMULA_NAME) + 1:]
         else:
